@@ -347,6 +347,38 @@ pub fn strat_challenge(rng: &mut StdRng, stratum: Option<usize>) -> [u8; 4] {
 
 /// A reply that is malformed for section `sec` (D8): the fault-free run of the request returns a
 /// non-timeout error on it.
+/// The datagrams of a malformed reply: one malformed datagram, or (players / rules) a split reply of three fragments whose
+/// first-arriving fragment carries a number outside 0..total - the client has to get past ALL its datagrams (a fragment left
+/// unread would be taken for the answer to the next request).
+pub fn malformed_batch(rng: &mut StdRng, sec: &str, good: &[u8], gold: bool) -> (Vec<Vec<u8>>, &'static str) {
+    if sec != "info" && good.len() > 12 && rng.gen_bool(0.3) {
+        let id: u32 = rng.gen::<u32>() & 0x7fff_ffff;
+        let cuts = [good.len() / 3, 2 * good.len() / 3];
+        let pieces = [&good[.. cuts[0]], &good[cuts[0] .. cuts[1]], &good[cuts[1] ..]];
+        let bad_number: u8 = [3u8, 7, 15][rng.gen_range(0 .. 3)];
+        let numbers = [bad_number, 1, 2];
+        let frags = pieces
+            .iter()
+            .zip(numbers)
+            .map(|(p, n)| {
+                let mut d = vec![0xfe, 0xff, 0xff, 0xff];
+                d.extend(id.to_le_bytes());
+                if gold {
+                    d.push((n << 4) | 3);
+                } else {
+                    d.extend([3, n]);
+                    d.extend(1248u16.to_le_bytes());
+                }
+                d.extend(*p);
+                d
+            })
+            .collect();
+        return (frags, "split reply with a fragment number outside 0..total arriving first");
+    }
+    let (m, why) = malformed(rng, sec, good);
+    (vec![m], why)
+}
+
 pub fn malformed(rng: &mut StdRng, sec: &str, good: &[u8]) -> (Vec<u8>, &'static str) {
     match rng.gen_range(0 .. 4) {
         0 => (vec![], "empty datagram"),
@@ -506,9 +538,9 @@ pub fn concretise_for(rng: &mut StdRng, ctx: &Ctx, b: &Value, row: Option<(&'sta
                 vec![payload]
             }
             "bad" => {
-                let (m, why) = malformed(rng, sec, &payload);
+                let (m, why) = malformed_batch(rng, sec, &payload, goldsrc_split(&engine));
                 detail.push(json!({"send": i, "malformed": why}));
-                vec![m]
+                m
             }
             "silent" => vec![],
             "chal" => {
@@ -1066,7 +1098,7 @@ pub fn trace_random(ctx: &Ctx, seed: u64, runs: usize, dump: Option<usize>, out:
             let mut cb = None;
             on_send.push(match reactions[i] {
                 "good" => vec![payload],
-                "bad" => vec![malformed(&mut rng, sec, &payload).0],
+                "bad" => malformed_batch(&mut rng, sec, &payload, goldsrc_split(&engine)).0,
                 "silent" => vec![],
                 "chal" => {
                     let c = strat_challenge(&mut rng, None);
